@@ -175,6 +175,8 @@ def run_recovery(ctx):
 
 def run(ctx):
     ctx.guard("recovery", lambda: run_recovery(ctx))
+    from vpr import serdeattr
+    ctx.guard("serde", lambda: serdeattr.check(ctx, "serde", [T + "TenantSnapshot"], 10))
     ctx.guard("persist-after-mutate", lambda: run_handlers(ctx))
     ctx.guard("snapshot-fields", lambda: run_fields(ctx))
     ctx.guard("write-order", lambda: run_order(ctx))
